@@ -118,6 +118,12 @@ use std::fmt::Display;
 pub use num_complex;
 pub use num_traits;
 
+// Verification hook (H2): with `--cfg rustfft_verif`, shadow `is_x86_feature_detected!` for every module
+// declared below, so that a process-global mask can hide CPU features that are really present. Add-only.
+#[cfg(all(rustfft_verif, target_arch = "x86_64"))]
+#[macro_use]
+mod verif_mask;
+
 #[macro_use]
 mod common;
 
